@@ -11,6 +11,7 @@ oracle  : on libcoap's output alone - the peer's result equals the original mess
           a different context is rejected; rejected deliveries answer with an error or not at all.
 """
 import re
+import time
 import vlib
 import tie
 import gen_oscore as G
@@ -79,6 +80,218 @@ def known_match(run, what_kind, detail):
     return run.match_known(sig)
 
 
+LIVE_WRAPS = ["coap_ticks", "coap_socket_send", "coap_socket_recv"]
+
+
+def cap_by_bytes(items, cap, r):
+    """uniform subsample of deliveries so that the datagram bytes the reference has to process
+    stay below cap (item[0] = case line ending in the datagram)"""
+    w = [len(it[0].split()[-1]) // 2 + 64 for it in items]
+    total = sum(w)
+    if total <= cap:
+        return items
+    keep = cap / total
+    return [it for it in items if r.random() < keep]
+
+
+def strip_tm(d):
+    """drop type and message id of a dump (chosen by the library for responses)"""
+    return re.sub(r"t=\d+ (c=\d+) m=\d+", r"\1", d)
+
+
+def corpus_exchange(ln):
+    """the parts of a corpus live line the oracle needs"""
+    t = ln.split()
+    b = lambda s_: b"" if s_ == "-" else bytes.fromhex(s_)
+    i = 6
+    nreq = int(t[i + 4])
+    req = dict(type=int(t[i]), code=int(t[i + 1]), mid=int(t[i + 2]), token=b(t[i + 3]),
+               opts=[(int(t[i + 5 + 2 * k]), b(t[i + 6 + 2 * k])) for k in range(nreq)],
+               payload=b(t[i + 5 + 2 * nreq]))
+    j = i + 6 + 2 * nreq
+    return dict(ctx=(b(t[1]), None if t[2] == "-" else b(t[2]), None if t[3] == "-" else b(t[3]), b(t[4]), b(t[5])),
+                req=req, cseq=int(t[j]), resp=None, sseq=int(t[-1]), sendpiv=0)
+
+
+def live_phase(run, model, live_cases, quick):
+    """real client session + real server context joined by harness/common/vnet.h: what the
+    application handlers see, for the genuine exchange and for every flip / truncation of the
+    request at the server (cold: first datagram of a new peer; warm: after the genuine exchange
+    from the same address) and of the response at the client"""
+    t0 = time.time()
+    import os
+    if not os.path.exists(os.path.join(vlib.ROOT, "harness", "common", "vnet.h")):
+        # the shared scripted network is the coordinator's file; a tree without it (a branch
+        # checked out on its own) can only run the PDU-level part
+        run.cov["live"] = {"skipped": "harness/common/vnet.h is not in this tree"}
+        vlib.log("note (C14): live client/server phase skipped, harness/common/vnet.h missing")
+        return
+    ldrv = vlib.build_driver("h_oscore_live", ["h_oscore_live.c"], wraps=LIVE_WRAPS)
+    st = {"exchanges": len(live_cases), "variants": 0, "handler_runs_unprotected_field": 0,
+          "violations": 0, "reference_checked": 0}
+    lines, meta = [], []
+    for ln in vlib.read_corpus("C14"):
+        if ln.split()[0] in ("liveflip", "liveflipw", "liveflipr"):
+            lines.append(ln)
+            meta.append((ln.split()[0], corpus_exchange(ln), {}))
+    for x, fm, fc in live_cases:
+        for cmd in ("live", "liveflip", "liveflipw", "liveflipr"):
+            lines.append(G.live_line(cmd, x))
+            meta.append((cmd, x, fm))
+    out, crashes = vlib.run_lines_robust(ldrv, lines, timeout=1500)
+    st["crashes"] = len(crashes)
+    follow = []     # (oscun line, expected libcoap application dump, description, replay)
+    nbad = 0
+
+    def bad(what, replay_text, no_input=False):
+        nonlocal nbad
+        nbad += 1
+        st["violations"] += 1
+        if nbad <= 4:
+            run.violation(what, replay_text, tag="live%d" % nbad, no_input=no_input)
+
+    for (cmd, x, fm), ln, o in zip(meta, lines, out):
+        run.cov["evaluations"] += 1
+        secret, salt, idctx, cid, sid = G.ctx_tokens(x["ctx"])
+        if o.startswith("CRASH") or o.startswith("NOCTX") or "=" not in o:
+            bad("live driver: libcoap crashes or refuses (%s)" % o[:80], "case: %s\nimpl : %s\n" % (ln, o))
+            continue
+        if cmd == "live":
+            m = re.match(r"p1=(\S+) app=(.*) handler=(\d+) responses=(\d+) nacks=(\d+)$", o)
+            if not m:
+                bad("live exchange: no protected request (%s)" % o[:80], "case: %s\nimpl : %s\n" % (ln, o))
+                continue
+            p1, app, nh, nr, nn = m.groups()
+            piv = G.uint_bytes(x["sseq"]) or b"\0"
+            exp = "H[" + G.dump_of(x["req"]) + "]R[" + strip_tm(G.dump_of(x["resp"], opts=obs_fix(x["resp"]["opts"], piv))) + "]"
+            got = re.sub(r"R\[(.*)\]$", lambda mm: "R[" + strip_tm(mm.group(1)) + "]", app)
+            if p1 != fm.get("p1"):
+                bad("live exchange: the datagram sent by coap_send differs from the reference",
+                    "case: %s\nreference p1: %s\nimpl : %s\n" % (ln, fm.get("p1"), o))
+            elif got != exp:
+                bad("live exchange: the application does not see the original messages: got %s expected %s" % (got[:200], exp[:200]),
+                    "case: %s\nimpl : %s\nexpected app=%s\n" % (ln, o, exp))
+            if run.cov.get("live_sample") is None:
+                run.cov["live_sample"] = {"case": ln[:300], "impl": o[:300]}
+            continue
+        m = re.match(r"(p1|p2)=(\S+) ran=(.*) n=(\d+) handler_runs=(\d+)", o)
+        if not m:
+            bad("live tamper run gives no answer (%s)" % o[:80], "case: %s\nimpl : %s\n" % (ln, o))
+            continue
+        which, dgh, ran, nvar, nruns = m.groups()
+        st["variants"] += int(nvar)
+        dg = bytes.fromhex(dgh)
+        loc = G.locate(dg)
+        rtok = x["req"]["token"]
+        if ran == "-":
+            continue
+        for item in ran.split("|"):
+            tag, seen = item.split(":", 1)
+            var = apply_variant(dg, tag)
+            vloc = G.locate(var) if len(var) >= 4 else None
+            cls = variant_class(dg, loc, tag)
+            has_osc = bool(vloc and vloc.get("opt"))
+            if which == "p1":
+                un = " ".join(["oscun", secret, salt, idctx, sid, cid, "req", var.hex() if var else "-"])
+                if cls in ("opt", "ct", "trunc") or not has_osc:
+                    bad("live server (%s): the handler of an OSCORE-only resource ran for a tampered request (variant %s, %s): %s" %
+                        ("after a genuine exchange from the same peer" if cmd == "liveflipw" else "first datagram of the peer",
+                         tag, "no OSCORE option left" if not has_osc else cls, seen[:160]),
+                        "case: %s\noriginal datagram: %s\nvariant %s\nhandler saw: %s\nreplay (PDU level): %s\n" % (ln, dgh, tag, seen, un))
+                else:
+                    st["handler_runs_unprotected_field"] += 1
+                    if len(follow) < (4000 if quick else 60000):
+                        follow.append((un, "OK [" + seen[2:-1] + "]", tag, ln))
+            else:
+                tkl = var[0] & 15 if var else 0
+                vtok_ = var[4:4 + tkl] if tkl <= 8 else None
+                un = " ".join(["oscun", secret, salt, idctx, cid, sid, "resp", G.tok(rtok), str(x["cseq"]),
+                               var.hex() if var else "-"])
+                code = var[1] if len(var) > 1 else 0
+                if cls in ("opt", "ct", "trunc") and has_osc and vtok_ == rtok:
+                    f = known_match(run, "tamper", {"direction": "resp", "field": cls, "peer_id_empty": sid == "-",
+                                                    "flag_bit": (loc["opt"] and (int(tag[1:]) - 8 * loc["opt"][0])) if cls == "opt" else None})
+                    if f:
+                        run.known(f, "live %s" % tag)
+                    else:
+                        bad("live client: the response handler ran for a tampered response (variant %s, %s): %s" % (tag, cls, seen[:160]),
+                            "case: %s\noriginal datagram: %s\nvariant %s\nhandler saw: %s\nreplay (PDU level): %s\n" % (ln, dgh, tag, seen, un))
+                elif not has_osc and vtok_ == rtok and (code >> 5) == 2:
+                    bad("live client: an unprotected 2.xx response to the protected request reached the response handler (variant %s): %s" % (tag, seen[:160]),
+                        "case: %s\noriginal datagram: %s\nvariant %s\nhandler saw: %s\n" % (ln, dgh, tag, seen))
+                else:
+                    st["handler_runs_unprotected_field"] += 1
+    # ---- Observe over time: notifications carry increasing Partial IVs and the application sees
+    # them as Observe values; every notification datagram verifies in the reference to what the
+    # client's handler saw
+    r2 = tie.rng_for(run, "liveobs")
+    olines, ometa = [], []
+    for x, fm, fc in live_cases[:(12 if quick else 120)]:
+        secret, salt, idctx, cid, sid = G.ctx_tokens(x["ctx"])
+        tok = x["req"]["token"] or b"\x01"
+        n = r2.choice([1, 3, 6])
+        sseq = r2.choice([0, 254, 255, 65534, (1 << 24) - 3, (1 << 32) - 2, x["sseq"]])
+        sseq = min(sseq, (1 << 40) - 12)
+        olines.append(" ".join(["liveobs", secret, salt, idctx, cid, sid, str(x["req"]["type"]), G.tok(tok),
+                                str(x["cseq"]), str(sseq), str(n)]))
+        ometa.append((x, tok, sseq, n))
+    oout, _ = vlib.run_lines_robust(ldrv, olines, timeout=600)
+    overify = []
+    for (x, tok, sseq, n), ln, o in zip(ometa, olines, oout):
+        run.cov["evaluations"] += 1
+        m = re.match(r"dgrams=(\S*) app=(.*) responses=(\d+)$", o)
+        if not m:
+            bad("live observe: no answer (%s)" % o[:80], "case: %s\nimpl : %s\n" % (ln, o))
+            continue
+        dgs = [d for d in m.group(1).split(",") if d]
+        seen = re.findall(r"R\[([^\]]*)\]", m.group(2))
+        exp = []
+        for i in range(n + 1):
+            piv = G.uint_bytes(sseq + i) or b"\0"
+            exp.append("o=6:%s p=%s" % (piv[-3:].hex(), ("v%d" % i).encode().hex()))
+        got = [re.sub(r"^.* (o=\S+ p=\S+)$", r"\1", d) for d in seen]
+        if got != exp or len(dgs) != n + 1:
+            bad("live observe: the application sees Observe/payload %s, expected %s (one per notification, Observe = low bytes of the notification's Partial IV)" % (got, exp),
+                "case: %s\nimpl : %s\n" % (ln, o))
+            continue
+        secret, salt, idctx, cid, sid = G.ctx_tokens(x["ctx"])
+        for d, sd in zip(dgs, seen):
+            overify.append((" ".join(["oscun", secret, salt, idctx, cid, sid, "resp", G.tok(tok), str(x["cseq"]), d]),
+                            "OK [" + sd + "]", "notification", ln))
+    st["observe_sequences"] = len(olines)
+    follow = overify + follow
+    # what the handler saw for variants of unprotected fields = what the reference hands out
+    if follow:
+        follow = cap_by_bytes(follow, 400_000 if quick else 3_000_000, tie.rng_for(run, "live"))
+        fm_ = vlib.run_lines_robust(model, [f[0] for f in follow], timeout=3000)[0]
+        for (un, seen, tag, ln), mo in zip(follow, fm_):
+            st["reference_checked"] += 1
+            if mo != seen:
+                bad("live server: the handler saw something else than the reference hands out (variant %s)" % tag,
+                    "case: %s\nreplay (PDU level): %s\nreference: %s\nhandler : %s\n" % (ln, un, mo, seen), no_input=True)
+    st["seconds"] = round(time.time() - t0, 1)
+    run.cov["live"] = st
+    run.cov["evaluations"] += st["variants"]
+
+
+def replay(run, model, drv, path):
+    """re-run the case(s) of a replay file: lines 'case: <line>' / 'replay: <line>'"""
+    lines = []
+    for ln in open(path):
+        m = re.match(r"(?:case|replay): ((?:oscx|oscun|oscderive|oscseq) .*)$", ln.strip())
+        if m:
+            lines.append(m.group(1))
+    om, oc, _ = tie.run_both(model, drv, lines)
+    for k, ln in enumerate(lines):
+        run.count(ln, True)
+        run.sample({"case": ln[:400], "model": om[k][:300], "impl": oc[k][:300]})
+        if om[k] != oc[k]:
+            run.violation("replay: libcoap differs from the reference", "case: %s\nmodel: %s\nimpl : %s\n" %
+                          (ln, om[k], oc[k]), tag="replay%d" % k,
+                          no_input=not (oc[k].startswith("OK") or "NONE" in oc[k] or "REJECT" in oc[k]))
+    run.cov["replayed"] = len(lines)
+
+
 def main(run):
     run.cov["trusted_base"] = vlib.TRUSTED_COMMON + [
         "reference: coq/Oscore/{Aes128,Ccm,Sha256,Hkdf,Cbor,OscOption,Protect}.v written from FIPS-197, "
@@ -97,10 +310,12 @@ def main(run):
     model = vlib.build_model()
     drv = vlib.build_driver("h_oscore", ["h_oscore.c"], wraps=WRAPS)
     quick = run.tier == "quick"
+    if getattr(run, "replay", None):
+        return replay(run, model, drv, run.replay)
     r = tie.rng_for(run, "c14")
 
     # ---------------------------------------------------------------- exchanges
-    n_ex = 150 if quick else 4000
+    n_ex = 150 if quick else 2000
     cases = []          # (exchange or None, line)
     corpus = vlib.read_corpus("C14")
     for ln in corpus:
@@ -109,7 +324,12 @@ def main(run):
     for i in range(n_ex):
         x = G.gen_exchange(r, big=(i % 8 == 0))
         cases.append((x, G.line_of(x)))
+    n_live = 40 if quick else 400
+    for i in range(n_live):
+        x = G.gen_live_exchange(r)
+        cases.append((x, G.line_of(x)))
     lines = [c[1] for c in cases]
+    t_phase = time.time()
     # corpus deliveries (tampered datagrams of fixed defects): reference and libcoap must agree
     cun = [ln for ln in corpus if ln.startswith("oscun ")]
     if cun:
@@ -123,6 +343,7 @@ def main(run):
     om, oc, crashes = tie.run_both(model, drv, lines)
     run.cov["driver_crashes"] = len(crashes)
     nbad = 0
+    live_cases = []     # (exchange, reference fields, libcoap PDU-level fields)
     tamper_jobs = []    # (ctx tokens for the receiving endpoint, mode tokens, datagram hex, info)
     for i, (x, ln) in enumerate(cases):
         mo, co = om[i], oc[i]
@@ -173,6 +394,8 @@ def main(run):
                     run.violation(bad, "case: %s\nmodel: %s\nimpl : %s\n" % (ln, mo, co),
                                   tag="tie%d" % nbad, no_input=no_input)
             continue
+        if x is not None and x.get("live"):
+            live_cases.append((x, fm, fc))
         # collect tamper jobs from libcoap's own datagrams
         if x is not None and fc.get("p1") not in (None, "NONE"):
             secret, salt, idctx, cid, sid = G.ctx_tokens(x["ctx"])
@@ -181,6 +404,8 @@ def main(run):
                 tamper_jobs.append(([secret, salt, idctx, cid, sid],
                                     ["resp", G.tok(x["req"]["token"]), str(x["cseq"])], fc["p2"], (i, "resp")))
 
+    run.cov.setdefault("phase_seconds", {})["exchanges"] = round(time.time() - t_phase, 1)
+    t_phase = time.time()
     # ---------------------------------------------------------------- different context
     other = []
     for ctxt, mode, dg, info in tamper_jobs:
@@ -195,8 +420,7 @@ def main(run):
         ]
         for c2, what in alt:
             other.append((" ".join(["oscun"] + c2 + mode + [dg]), what, info))
-    if quick:
-        other = other[:240]
+    other = other[:240] if quick else other[:3000]
     am, ac, _ = tie.run_both(model, drv, [o[0] for o in other])
     n_other_bad = 0
     for k, (ln, what, info) in enumerate(other):
@@ -214,8 +438,58 @@ def main(run):
                               no_input=True)
     run.cov["different_context"] = {"deliveries": len(other), "failures": n_other_bad}
 
+    # ---------------------------------------------------------------- sequences on one token
+    # registration, re-registration / cancellation with the same token, responses with and
+    # without Partial IV: the request binding kept by both endpoints is refreshed in between
+    sq = [ln for ln in corpus if ln.startswith("oscseq ")]
+    sq += [G.gen_sequence(r) for _ in range(60 if quick else 1500)]
+    qm, qc, _ = tie.run_both(model, drv, sq, timeout=3000)
+    n_sq_bad = 0
+    for k, ln in enumerate(sq):
+        run.count(ln, "REJECT" not in qm[k] and "NONE" not in qm[k])
+        run.hist("sequence_steps", len(ln.split()) - 10)
+        bad = None
+        if qc[k].startswith("CRASH"):
+            bad = "implementation crashes in a request/response sequence on one token"
+        elif re.search(r"=(NONE|REJECT|PARSE-REJECT|PLAIN)", qc[k]):
+            step = len(re.findall(r" d[qr]=", qc[k].split("REJECT")[0].split("NONE")[0]))
+            bad = "sequence on one token: a genuine message is not protected / not recovered by the peer (step %d of %s)" % (
+                max(step, 1), " ".join(ln.split()[10:]))
+        elif qm[k] != qc[k]:
+            bad = "sequence on one token: protected bytes / results differ from the RFC 8613 reference"
+        if bad:
+            n_sq_bad += 1
+            if n_sq_bad <= 3:
+                run.violation(bad, "case: %s\nmodel: %s\nimpl : %s\n" % (ln, qm[k], qc[k]), tag="seq%d" % n_sq_bad)
+    run.cov["sequences"] = {"cases": len(sq), "failures": n_sq_bad}
+    # ---------------------------------------------------------------- re-spelled OSCORE options
+    sv = []
+    for ctxt, mode, dgh, info in tamper_jobs:
+        for tag, var, must in G.structured_variants(bytes.fromhex(dgh), mode[0] == "req"):
+            sv.append((" ".join(["oscun"] + ctxt + mode + [var.hex()]), tag, must, dgh))
+    sv = sv[:2500] if quick else sv[:6000]
+    sm, sc, _ = tie.run_both(model, drv, [v[0] for v in sv], timeout=3000)
+    n_sv_bad = 0
+    for k, (ln, tag, must, dgh) in enumerate(sv):
+        run.cov["evaluations"] += 1
+        run.hist("structured_option_change", "%s:%s" % (tag, sc[k].split(" ")[0]))
+        if must and sc[k].startswith("OK"):
+            n_sv_bad += 1
+            if n_sv_bad <= 3:
+                run.violation("datagram with a modified OSCORE option value (%s) is accepted: %s" % (tag, sc[k][:160]),
+                              "original datagram: %s\nreplay: %s\nmodel: %s\nimpl : %s\n" % (dgh, ln, sm[k], sc[k]),
+                              tag="opt%d" % n_sv_bad)
+        elif sm[k] != sc[k]:
+            n_sv_bad += 1
+            if n_sv_bad <= 3:
+                run.violation("modified OSCORE option value (%s): implementation differs from the reference" % tag,
+                              "original datagram: %s\nreplay: %s\nmodel: %s\nimpl : %s\n" % (dgh, ln, sm[k], sc[k]),
+                              tag="opt%d" % n_sv_bad, no_input=not sc[k].startswith("OK"))
+    run.cov["structured_option_changes"] = {"deliveries": len(sv), "failures": n_sv_bad}
+    run.cov["phase_seconds"]["different_context"] = round(time.time() - t_phase, 1)
+    t_phase = time.time()
     # ---------------------------------------------------------------- bit flips and truncations
-    budget = 300_000 if quick else 12_000_000     # bits+truncations delivered to libcoap
+    budget = 1_500_000 if quick else 40_000_000     # bits+truncations delivered to libcoap
     jobs = []
     used = 0
     for j in sorted(tamper_jobs, key=lambda j: len(j[2])):
@@ -228,6 +502,7 @@ def main(run):
     fo, fcr = vlib.run_lines_robust(drv, flines, timeout=1500)
     stats = {"datagrams": len(jobs), "variants": 0, "parse_rej": 0, "osc_rej": 0, "plain": 0,
              "accepted_unprotected_field": 0, "accepted_protected_field": 0, "crashes": len(fcr)}
+    nother = 0
     followups = []       # oscun lines for accepted / plain variants + a sample of rejected ones
     nflip_bad = 0
     for (ctxt, mode, dgh, info), ln, out in zip(jobs, flines, fo):
@@ -278,17 +553,27 @@ def main(run):
                                           "replay: %s\nimpl : %s\n" % (dgh, tag, un, rest), tag="flip%d" % nflip_bad)
                 elif kind == "A":
                     stats["accepted_unprotected_field"] += 1
+                    # type / message id / token / outer-option flips: compare a sample with the reference
+                    nother += 1
+                    if nother % (6 if quick else 2) != 1:
+                        continue
                 followups.append((un, info, tag))
         # rejected variants: confirm a sample against the reference (all of them for short datagrams)
         nvar = 9 * len(dg)
         # the reference costs ~0.06 ms per byte and delivery: bound the work per datagram
-        want = max(3, min(24, 2400 // len(dg))) if quick else max(8, min(400, 40000 // len(dg)))
+        want = max(3, min(24, 2400 // len(dg))) if quick else max(8, min(60, 12000 // len(dg)))
         step = max(1, nvar // want)
         for v in range(r.randrange(step), nvar, step):
             tag = ("b%d" % v) if v < 8 * len(dg) else ("t%d" % (v - 8 * len(dg)))
             var = apply_variant(dg, tag)
             followups.append((" ".join(["oscun"] + ctxt + mode + [var.hex() if var else "-"]), info, tag))
-    um, uc, _ = tie.run_both(model, drv, [f[0] for f in followups])
+    run.cov["phase_seconds"]["flips_impl"] = round(time.time() - t_phase, 1)
+    t_phase = time.time()
+    # the reference costs about 20 us per ciphertext byte and delivery: bound the total
+    followups = cap_by_bytes(followups, 1_500_000 if quick else 9_000_000, r)
+    stats["reference_bytes"] = sum(len(f[0].split()[-1]) // 2 for f in followups)
+    um, uc, _ = tie.run_both(model, drv, [f[0] for f in followups], timeout=3000)
+    run.cov["phase_seconds"]["flips_reference"] = round(time.time() - t_phase, 1)
     ndis = 0
     for k, (ln, info, tag) in enumerate(followups):
         run.cov["evaluations"] += 1
@@ -299,9 +584,32 @@ def main(run):
                 run.violation("tampered delivery: implementation differs from the reference (variant %s)" % tag,
                               "case: %s\nmodel: %s\nimpl : %s\n" % (ln, um[k], uc[k]), tag="un%d" % ndis,
                               no_input=not uc[k].startswith("OK"))
+    if not quick:
+        # independent re-check of the compiled proofs (coqchk) incl. the list of axioms used
+        rc, out = vlib.sh(["coqchk", "-silent", "-o", "-Q", ".", "LibcoapV", "LibcoapV.Properties_C14"],
+                          cwd=vlib.COQ, timeout=2400, check=False)
+        ok = rc == 0 and re.search(r"Axioms:\s*<none>", out) is not None
+        run.cov["coqchk"] = {"ok": ok, "summary": " ".join(out.split())[-400:]}
+        if not ok:
+            run.violation("coqchk does not accept Properties_C14 or reports axioms", out[-4000:], tag="coqchk",
+                          no_input=True)
+    if not quick:
+        # sanitizer variant (ASan + UBSan, libcoap itself instrumented): the exchanges and the
+        # tampered deliveries of the shortest datagrams again; only crashes/reports matter here
+        adrv = vlib.build_driver("h_oscore", ["h_oscore.c"], variant="asan", wraps=WRAPS)
+        alines = lines[:600] + flines[:400]
+        ao, acr = vlib.run_lines_robust(adrv, alines, timeout=1500,
+                                        env={"ASAN_OPTIONS": "detect_leaks=0:abort_on_error=1"})
+        stats["sanitizer_lines"] = len(alines)
+        stats["sanitizer_reports"] = len(acr)
+        for idx, rc, err in acr[:2]:
+            nflip_bad += 1
+            run.violation("sanitizer report / crash in libcoap (rc=%d)" % rc,
+                          "case: %s\n\n%s\n" % (alines[idx], err), tag="asan%d" % idx)
+    live_phase(run, model, live_cases, quick)
     stats["reference_checked"] = len(followups)
     stats["reference_disagreements"] = ndis
     run.cov["tamper"] = stats
     run.cov["evaluations"] += stats["variants"]
-    run.cov["disagreements"] = nbad + n_other_bad + nflip_bad + ndis
+    run.cov["disagreements"] = nbad + n_other_bad + n_sq_bad + n_sv_bad + nflip_bad + ndis
     run.cov["corpus_cases"] = len(corpus)
